@@ -146,6 +146,37 @@ def soc_in_range(rng, n):
     return None, None
 
 
+def calculators_do_not_touch_their_arguments():
+    """The working set handed to calculate() is the aggregator's own set (passed by reference on every recalculation):
+    a calculator must not change it - a battery without data NOW is left out of this aggregate, not out of the set."""
+    from frequenz.client.microgrid import ComponentMetricId as M
+    from frequenz.sdk.timeseries.battery_pool._component_metrics import ComponentMetricsData
+    from frequenz.sdk.timeseries.battery_pool._metric_calculator import CapacityCalculator, SoCCalculator, TemperatureCalculator
+    now = datetime.now(tz=timezone.utc)
+
+    def md(b, soc):
+        return ComponentMetricsData(b, now, {M.SOC: soc, M.SOC_LOWER_BOUND: 10.0, M.SOC_UPPER_BOUND: 90.0, M.CAPACITY: 1000.0,
+                                             M.TEMPERATURE: 20.0})
+    for cls in (SoCCalculator, CapacityCalculator, TemperatureCalculator):
+        calc = cls(frozenset({9, 19}))
+        working = {9, 19}
+        data = {9: md(9, 50.0)}                      # battery 19 is working but has no cached data yet
+        first = calc.calculate(data, working)
+        if working != {9, 19}:
+            return f"{cls.__name__}.calculate changed the working set it was handed from {{9, 19}} to {working}"
+        if set(data) != {9}:
+            return f"{cls.__name__}.calculate changed the metrics mapping it was handed (keys now {sorted(data)})"
+        data[19] = md(19, 30.0)                      # ... its data arrives: the next aggregate covers both
+        second = calc.calculate(data, working)
+        v1 = None if first is None or first.value is None else first.value.base_value
+        v2 = None if second is None or second.value is None else second.value.base_value
+        if cls is CapacityCalculator and (v1 is None or v2 is None or abs(v2 - 2 * v1) > 1e-9):
+            return f"CapacityCalculator: one battery with data gives {v1}, both give {v2} (expected twice as much)"
+        if cls is SoCCalculator and (v2 is None or abs(v2 - 37.5) > 1e-9):
+            return f"SoCCalculator: batteries at 50 % and 30 % (limits 10..90, equal capacities) give {v2}, expected 37.5"
+    return None
+
+
 def run(req):
     t0 = time.time()
     cases = list(itertools.product(nan_variants().items(), ["soc", "soc_lower_bound", "soc_upper_bound", "capacity"]))
@@ -170,6 +201,14 @@ def run(req):
         if f:
             failure = (f, {"readings": values})
     if not failure:
+        n_extra += 1
+        try:
+            f = calculators_do_not_touch_their_arguments()
+        except Exception as e:  # pylint: disable=broad-except
+            f = f"scenario raised {type(e).__name__}: {e}"
+        if f:
+            failure = (f, {"working": [9, 19], "data_for": [9]})
+    if not failure:
         import random
         n_fleets = 3000 if req.get("tier", "quick") == "quick" else 30000
         n_extra += n_fleets
@@ -181,7 +220,8 @@ def run(req):
            "samples": [{"nan": c[0][0], "field": c[1]} for c in cases[:2]], "wall_s": round(time.time() - t0, 2),
            "exhaustive": False,
            "rule": "5 ways of producing a NaN x 4 battery metrics, one battery with the NaN next to a healthy one; 2 sets of "
-                   "non-integer readings through the real battery / inverter fetchers (handed on unchanged); seeded random "
+                   "non-integer readings through the real battery / inverter fetchers (handed on unchanged); the calculators "
+                   "leave the working set and the metrics mapping they are handed untouched; seeded random "
                    "fleets of 1-4 batteries with non-integer capacities and limits, full / empty / mixed: pool SoC within "
                    "[0, 100] in floats; all distinct"}
     if failure:
